@@ -14,7 +14,12 @@ import DclabModel.Gen.AncTable
 * `available_iff_runnable_partial`, `emodulus_available_iff_runnable_partial`
                              `feat in ds` ⇔ reading succeeds, outside the recorded classes
                              F07/F63 (witnesses `F07_witness`, `F07_exactly_8`, `F63_witness`);
-* `emodulus_precedence`      which scenario recipe is selected for all 64 combinations;
+* `emodulus_precedence`, `emodulus_precedence_any_values`, `selection_by_presence`
+                             which scenario recipe is selected for all 64 combinations — for
+                             arbitrary values (0.0, -0.0, …): only presence matters;
+* `hier_transparent`         children / grandchildren: every read on every level equals a
+                             freshly built hierarchy (`C06_2_pop_only_witness`: a
+                             `set_temporary_feature(child)` that does not rejuvenate is stale);
 * `F05_*`, `F06_*`, `F61_*`, `F62_*`  the tables / code before the fixes violate the property.
 -/
 namespace DclabModel.C06
@@ -167,6 +172,50 @@ theorem emodulus_precedence :
       && r.map (fun p => decide (4 ≤ p.priority)) == (precedenceSpec c).map (· == "case C"))
       = true := by decide +kernel
 
+theorem chip_absent :
+    allCombos.all (fun c => (getC (comboState c "CellCarrier") chipKey).isNone) = true := by
+  decide +kernel
+
+/-- the same for ARBITRARY values (zero, negative zero, …): the selection looks only at which
+keys and features are present, so every state with the presence pattern of a combination
+selects the documented scenario -/
+theorem emodulus_precedence_any_values (c : Combo) (hc : c ∈ allCombos) (s : St String String)
+    (hk : ∀ k, (getC s k).isSome = (getC (comboState c "CellCarrier") k).isSome)
+    (hf : ∀ f, (base (comboEnv c) s f).isSome
+                = (base (comboEnv c) (comboState c "CellCarrier") f).isSome) :
+    (selectedSpec liveSpecs (comboInnate c) 3 s "emodulus").map (·.tag) = precedenceSpec c := by
+  have hchip : getC s chipKey = getC (comboState c "CellCarrier") chipKey := by
+    have h0 : (getC (comboState c "CellCarrier") chipKey) = none := by
+      have := List.all_eq_true.mp chip_absent c hc
+      simpa using this
+    have := hk chipKey
+    rw [h0] at this ⊢
+    cases h : getC s chipKey with
+    | none => rfl
+    | some v => rw [h] at this; simp at this
+  have hrec : recAvail (comboEnv c) 3 s = recAvail (comboEnv c) 3 (comboState c "CellCarrier") :=
+    funext (recAvail_presence hk hf (by rw [hchip]) 3)
+  have hsel : selectedSpec liveSpecs (comboInnate c) 3 s "emodulus"
+      = selectedSpec liveSpecs (comboInnate c) 3 (comboState c "CellCarrier") "emodulus" := by
+    simp only [selectedSpec]
+    have : envOf liveSpecs (comboInnate c) = comboEnv c := rfl
+    rw [this, hrec]
+  rw [hsel]
+  have h := List.all_eq_true.mp emodulus_precedence c hc
+  simp only [Bool.and_eq_true, beq_iff_eq] at h
+  exact h.1.1
+
+/-- selection (hence availability and which recipe's inputs are hashed) never depends on
+configuration *values*, only on presence (and on `chip region` being "channel") -/
+theorem selection_by_presence {D V : Type} {e : Env D V} {s s' : St D V}
+    (hk : ∀ k, (getC s k).isSome = (getC s' k).isSome)
+    (hf : ∀ f, (base e s f).isSome = (base e s' f).isSome)
+    (hch : e.chanOk (getC s chipKey) = e.chanOk (getC s' chipKey)) (n : Nat) (f : Feat) :
+    selected e n s f = selected e n s' f ∧ avail e n s f = avail e n s' f := by
+  refine ⟨selected_presence hk hf hch n f, ?_⟩
+  have : recAvail e n s = recAvail e n s' := funext (recAvail_presence hk hf hch n)
+  simp only [avail, this, hf]
+
 theorem allCombos_length : allCombos.length = 64 := by decide
 
 example : precedenceSpec ⟨true, true, true, true, false, true⟩ = some "case C" := by decide
@@ -209,6 +258,53 @@ theorem F63_witness :
     let s : St String String :=
       { temp := [], cfg := [("calculation:crosstalk fl21", "0.1"), ("calculation:crosstalk fl12", "0.2")] }
     avail e 3 s "fl1_max_ctc" = true ∧ fresh e 3 s "fl1_max_ctc" = none := by
+  decide +kernel
+
+/-! ## 3b. hierarchy children -/
+
+/-- A hierarchy of any depth (children, grandchildren, …) over a sound registry: for every
+history of root edits, `set_temporary_feature` through any level, filter changes, refreshes and
+reads on any level — where a level is rejuvenated before it is read if something above it
+changed (documented protocol; `set_temporary_feature(child)` does it itself) — every read
+returns what a freshly built hierarchy over a freshly opened root returns at that level. -/
+theorem hier_transparent {D V : Type} [DecidableEq D] [DecidableEq V] {e : Env D V}
+    (hs : Sound e) (n : Nat) (s0 : St D V) (hw : Wf e s0) (sels : List (D → D))
+    (ops : List (HOp D V)) :
+    (hrun e n ((s0, []), sels.map (fun s => { sel := s, dirty := false, cache := [] })) ops).2
+      = (hspecRun e n (s0, sels.map (fun s => { sel := s, dirty := false, cache := [] })) ops).2 := by
+  apply hrun_spec hs n ops s0 [] _ _ hw (inv_nil e) ?_ rfl
+  induction sels with
+  | nil => trivial
+  | cons x xs ih => exact ⟨fun _ f d h => by simp [Anc.get] at h, ih⟩
+
+def selStr (tag : String) (d : String) : String := tag ++ "[" ++ d ++ "]"
+
+/-- seeded change C06-2: `set_temporary_feature(child, …)` that only drops the entry of the
+replaced feature from the child instead of rejuvenating it — `ml_class`, computed from the
+replaced score and already cached in the child, stays stale -/
+theorem C06_2_pop_only_witness :
+    let e := envOf liveSpecs []
+    let s0 : St String String := { temp := [], cfg := [] }
+    let chain : List (Lvl String) := [{ sel := selStr "c", dirty := false, cache := [] }]
+    let h1 := (hrun e 3 ((s0, []), chain)
+      [.settVia 0 "ml_score_abc" "a1", .settVia 0 "ml_score_abd" "b1", .read 0 "ml_class"]).1
+    -- defective replacement of ml_score_abc through the child
+    let h2 : HSt String String :=
+      ((edit e h1.1.1 (.setT "ml_score_abc" "a2"), h1.1.2), hsettPopAt "ml_score_abc" 0 h1.2)
+    (hrun e 3 h2 [.read 0 "ml_class"]).2
+      ≠ (hspecRun e 3 (h2.1.1, chain) [.read 0 "ml_class"]).2 := by
+  decide +kernel
+
+/-- … while the real `set_temporary_feature` (rejuvenating) gives the fresh value -/
+example :
+    let e := envOf liveSpecs []
+    let s0 : St String String := { temp := [], cfg := [] }
+    let chain : List (Lvl String) := [{ sel := selStr "c", dirty := false, cache := [] }]
+    let ops : List (HOp String String) :=
+      [.settVia 0 "ml_score_abc" "a1", .settVia 0 "ml_score_abd" "b1", .read 0 "ml_class",
+       .settVia 0 "ml_score_abc" "a2", .read 0 "ml_class"]
+    (hrun e 3 ((s0, []), chain) ops).2 = (hspecRun e 3 (s0, chain) ops).2
+    ∧ (hrun e 3 ((s0, []), chain) ops).2.getLast? ≠ some (some none) := by
   decide +kernel
 
 /-! ## 4. the code before the fixes -/
